@@ -165,6 +165,8 @@ def run(ctx):
                 if len(parts) == 3 and int(parts[1]) >= 60: fail('minutes below 60 under hours', r, 'minutes >= 60 under hours')
                 dist = mdist.get(ev)
                 dur = athlib.parse_hms(r)
+                if dist and not dur:
+                    fail('speed within 0.5 .. %.0f m/s for %d m' % (11.0 if dist <= 400 else 10.0, dist), '%s = zero seconds' % r, 'speed outside the sanity window')
                 if dist and dur:
                     v = dist / dur
                     lim = 11.0 if dist <= 400 else 10.0
